@@ -670,7 +670,15 @@ pub fn run(args: &Args, out: &mut Out) {
     for k in 0..n {
         let mut prng = rng.fork();
         let opts = pgen::GenOpts { floats: k % 3 != 0, calls: true, max_depth: 1 + (k % 3) as u32 };
-        let src = pgen::Gen::new(&mut prng, opts).program();
+        let mut src = pgen::Gen::new(&mut prng, opts).program();
+        // declaration forms: every third program gets prototypes / definitions moved behind their uses (declforms.rs)
+        if k % 3 == 1 {
+            let (s2, np) = declforms::protoize(&src, &mut Rng::new(args.seed ^ k.wrapping_mul(0x9E37_79B9_7F4A_7C15) ^ 0x70726f74));
+            if np > 0 {
+                hist.add("programs-with-prototypes");
+                src = s2;
+            }
+        }
         let mut arng = rng.fork();
         if let Err(pn) = guard(|| run_program(&src, None, nvec, &mut arng, out, &mut hist)) {
             // a panic inside the harness itself (not under a guard of the real code): report, never hide
@@ -812,7 +820,14 @@ pub fn run(args: &Args, out: &mut Out) {
     // vector / struct / array / enum stream (C01.vfn): the Lean model answers `unsupported-op`, the two Rust evaluators judge
     let nv = if args.n.is_some() { n } else if args.thorough() { 4000 } else { 250 };
     for k in 0..nv {
-        let src = vrun::vprogram(args.seed, k);
+        let mut src = vrun::vprogram(args.seed, k);
+        if k % 3 == 2 {
+            let (s2, np) = declforms::protoize(&src, &mut Rng::new(args.seed ^ k.wrapping_mul(0x9E37_79B9_7F4A_7C15) ^ 0x70726f74));
+            if np > 0 {
+                hist.add("v:programs-with-prototypes");
+                src = s2;
+            }
+        }
         let mut arng = Rng::new(args.seed ^ (k.wrapping_mul(0x9E37_79B9_7F4A_7C15)) ^ 0x5eed);
         if let Err(pn) = guard(|| vrun::vrun_program(&src, None, 6, &mut arng, out, &mut hist)) {
             hist.add("harness-panic");
